@@ -172,6 +172,11 @@ impl Session {
             {
                 return multicast.handle_rx(dl, bytes).into();
             }
+            // A frame addressed to another device is not for this session, whatever key
+            // its MIC was computed with.
+            if encrypted_data.fhdr().dev_addr() != self.devaddr {
+                return Response::NoUpdate;
+            }
             let confirmed = encrypted_data.is_confirmed();
             let Some(fcnt) = next_fcnt_down(self.fcnt_down, encrypted_data.fhdr().fcnt()) else {
                 return Response::NoUpdate;
